@@ -260,8 +260,21 @@ class _Generator(Generator):
                                                                     'is_present')
                 member_name_to_is_present[member.name] = unique_is_present
 
-                if self.is_buffer_type(member):
-                    default_variable = canonical(member.name) + '_default'
+                member_checker = self.get_member_checker(checker, member.name)
+
+                if self.is_buffer_type(member) and \
+                        member_checker.minimum == member_checker.maximum:
+                    default_variable = self.get_default_variable(member)
+
+                    encode_lines += [
+                        'encoder_append_bool(encoder_p, memcmp(src_p->{}{}.buf, {}, sizeof({})) != 0);'.format(
+                            self.location_inner('', '.'),
+                            canonical(member.name),
+                            default_variable,
+                            default_variable)
+                    ]
+                elif self.is_buffer_type(member):
+                    default_variable = self.get_default_variable(member)
 
                     encode_lines += [
                         'encoder_append_bool(encoder_p, (memcmp(src_p->{}{}.buf, {}, sizeof({})) != 0) ||'.format(
